@@ -3,6 +3,7 @@ package run
 // C05 — dump mode: the output file is byte-identical to the n RDB bytes and the bytes after them stay unread.
 //
 //vf:job C05 quick VF_C05_Dump nrdb=1..3 nl=0..1
+//vf:job C05 quick VF_C05_Dump nrdb=1..2 nl=0 timer=1..2
 //vf:replayE C05 VF_C05_Dump
 //vf:stub C05 utils.OpenNetConn: scripted connection delivering newline keep-alives, '$n', the RDB and command bytes in fragments of symbolic size; utils.OpenWriteFile and (*os.File).Write/Close: in-memory file; time.After: never fires
 
@@ -72,17 +73,37 @@ func VF_C05_Dump() {
 	var file []byte
 	vfStub("github.com/alibaba/RedisShake/redis-shake/common.OpenNetConn", func(target, authType, passwd string, tls bool) (net.Conn, error) { return conn, nil })
 	vfStub("github.com/alibaba/RedisShake/redis-shake/common.OpenWriteFile", func(name string) *os.File { return new(os.File) })
-	vfStub("(*os.File).Close", func(f *os.File) error { return nil })
+	closed := false
+	lateWrite := false
+	timers := vfParam("timer", 0)
+	vfStub("(*os.File).Close", func(f *os.File) error { closed = true; return nil })
 	vfStub("(*os.File).Write", func(f *os.File, b []byte) (int, error) {
+		if timers > 0 {
+			vfYield() // output storage may be slow: the write is a scheduling point
+		}
+		if closed {
+			lateWrite = true
+			return 0, errors.New("vf: file already closed")
+		}
 		file = append(file, b...)
 		return len(b), nil
 	})
-	vfStub("time.After", func(d time.Duration) <-chan time.Time { return make(chan time.Time) })
+	// timer=0: the one-second progress timers never fire; timer=k: up to k of the timers, chosen freely, fire at once
+	// (a tick may come at any moment relative to the copy goroutine)
+	vfStub("time.After", func(d time.Duration) <-chan time.Time {
+		ch := make(chan time.Time, 1)
+		if timers > 0 && vfPick("fire", 2) == 1 {
+			timers--
+			ch <- time.Time{}
+		}
+		return ch
+	})
 	conf.Options.SourceAuthType = "auth"
 	conf.Options.SourceTLSEnable = false
 	dd := &dbDumper{id: 0, source: "s:1", sourcePassword: "", output: "out.rdb"}
 	reader, _, nsize := dd.dump()
 	vfAssert(nsize == int64(nrdb), "announced size differs from the header")
+	vfAssert(!lateWrite, "RDB bytes were written after the output file had been closed")
 	vfAssert(len(file) == nrdb, "dump file does not have exactly n bytes")
 	if len(file) == nrdb {
 		vfAssert(vfEqBytes(file, rdb), "dump file is not byte-identical to the RDB bytes")
